@@ -116,9 +116,37 @@ def run(ctx):
                     ctx.violation(f'multi-{i}.json', dict(case=c.__dict__, refused_for=hit, file=dst[len(root):], src_blocks=ss.st_blocks, dst_blocks=ds.st_blocks),
                                   f'C11: {dst[len(root):]} allocates {ds.st_blocks * 512} bytes (source {ss.st_blocks * 512}) after extent mapping was refused for ANOTHER file ({[h[len(root):] for h in hit]}); {c.driver}')
                     break
+        # ---- a file that is ONE hole but whose inode owns a block for its extended attributes (st_blocks > 0, no extent at all),
+        # and one with a single data block plus such attributes: the attribute block is not file data
+        for i in range(4 if ctx.quick else 24):
+            shutil.rmtree(root + '/S', ignore_errors=True); shutil.rmtree(root + '/D', ignore_errors=True)
+            os.makedirs(root + '/S')
+            src = root + '/S/labelled.img'
+            length = rng.choice([8, 80]) * MB
+            fd = os.open(src, os.O_CREAT | os.O_WRONLY, 0o644); os.ftruncate(fd, length)
+            if i % 2:
+                os.pwrite(fd, b'd' * K, 3 * MB)
+            os.close(fd)
+            os.setxattr(src, 'user.big', bytes(range(256)) * 3)
+            os.sync()
+            driver = ['parblock', 'parblock', 'parfile'][i % 3]
+            argv = ['-r', '-T', '--driver', driver, '--workers', str(rng.choice([1, 4]))] + rng.choice([['--block-size', '65536'], [], ['--no-perms']]) + ['S', 'D']
+            prior = rng.random() < 0.3
+            if prior:
+                os.makedirs(root + '/D'); fsutil.make_file(root + '/D/labelled.img', 2 * MB, [(0, 2 * MB)], seed=4)
+            r = scen.run_xcp(root, argv, timeout=120)
+            ss = os.stat(src)
+            ctx.count(f'xattr_block.{driver}.src_blocks_{min(ss.st_blocks, 16)}'); ctx.count(f'exit.{r.cls}'); ctx.case(('xattr-block', i, driver, tuple(argv), prior), True)
+            if r.cls != '0':
+                ctx.violation(f'xattr-block-{i}-exit.json', dict(argv=argv, stderr=r.stderr[-400:]), 'copy of a hole-only file with extended attributes failed', no_input=True)
+                continue
+            ds = os.stat(root + '/D/labelled.img')
+            if ds.st_blocks > ss.st_blocks + 24:
+                ctx.violation(f'xattr-block-{i}.json', dict(argv=argv, length=length, src_blocks=ss.st_blocks, dst_blocks=ds.st_blocks, data_block=bool(i % 2), prior_allocated=prior),
+                              f'C11: destination allocates {ds.st_blocks * 512} bytes, source {ss.st_blocks * 512} (apparent {length}; the source\'s only allocation besides {"one data block" if i % 2 else "nothing"} is its xattr block); {driver}')
         shutil.rmtree(root + '/S', ignore_errors=True); shutil.rmtree(root + '/D', ignore_errors=True)
     ctx.cov['rule'] = ('layouts {leading, trailing, interleaved, only-hole, 1-byte data, >32 extents} with holes 1..64 MiB (200 MiB thorough) x block sizes {4096, 12289, 100000, 1MB, usize::MAX} '
-                       'x driver x workers {1,2,4,16} x fresh / fully allocated existing destination; three sparse files in one run with FIEMAP refused for one of them. distinct = distinct (layout, block, driver, workers, prior)')
+                       'x driver x workers {1,2,4,16} x fresh / fully allocated existing destination; three sparse files in one run with FIEMAP refused for one of them; hole-only files whose inode owns an xattr block. distinct = distinct (layout, block, driver, workers, prior)')
     ctx.assumptions += ['ext4: blocks are allocated only where written; ftruncate/O_TRUNC release previous allocation (measured on every run, not proved)']
 
 
